@@ -14,7 +14,9 @@ import (
 // the proved fragment: programs, their jq text, their prefix form for the driver
 
 type q struct {
-	kind string // id const pipe comma iter empty arr param call error try trycatch index ite alt
+	kind string // id const pipe comma iter empty arr param call error try trycatch index ite alt var bind reduce foreach
+	c4   *q     // foreach: extract (a = src, b = init, c3 = update)
+	x    int    // var, bind: the variable
 	k    string // index: the field name
 	c3   *q     // ite: else branch
 	c    any    // const
@@ -72,6 +74,17 @@ func (e *q) text() string {
 		return "(if " + e.a.text() + " then " + e.b.text() + " else " + e.c3.text() + " end)"
 	case "alt":
 		return "(" + e.a.text() + " // " + e.b.text() + ")"
+	case "var":
+		return fmt.Sprintf("$v%d", e.x)
+	case "bind":
+		return fmt.Sprintf("(%s as $v%d | %s)", e.a.text(), e.x, e.b.text())
+	case "reduce":
+		return fmt.Sprintf("(reduce %s as $v%d (%s; %s))", e.a.text(), e.x, e.b.text(), e.c3.text())
+	case "foreach":
+		if e.c4.kind == "id" && len(e.k) > 0 {
+			return fmt.Sprintf("(foreach %s as $v%d (%s; %s))", e.a.text(), e.x, e.b.text(), e.c3.text())
+		}
+		return fmt.Sprintf("(foreach %s as $v%d (%s; %s; %s))", e.a.text(), e.x, e.b.text(), e.c3.text(), e.c4.text())
 	case "try":
 		return "(try (" + e.a.text() + "))"
 	case "trycatch":
@@ -86,6 +99,23 @@ func (e *q) prefix(sb *strings.Builder) {
 		sb.WriteString("c " + common.Canon(e.c) + " ")
 	case "index":
 		sb.WriteString("index " + common.Canon(e.k) + " ")
+	case "var":
+		fmt.Fprintf(sb, "var %d ", e.x)
+	case "bind":
+		fmt.Fprintf(sb, "bind %d ", e.x)
+		e.a.prefix(sb)
+		e.b.prefix(sb)
+	case "reduce":
+		fmt.Fprintf(sb, "reduce %d ", e.x)
+		e.a.prefix(sb)
+		e.b.prefix(sb)
+		e.c3.prefix(sb)
+	case "foreach":
+		fmt.Fprintf(sb, "foreach %d ", e.x)
+		e.a.prefix(sb)
+		e.b.prefix(sb)
+		e.c3.prefix(sb)
+		e.c4.prefix(sb)
 	case "ite":
 		sb.WriteString("ite ")
 		e.a.prefix(sb)
@@ -111,7 +141,7 @@ func (e *q) count(m map[string]int) int {
 		return 0
 	}
 	m[e.kind]++
-	return 1 + e.a.count(m) + e.b.count(m) + e.c3.count(m)
+	return 1 + e.a.count(m) + e.b.count(m) + e.c3.count(m) + e.c4.count(m)
 }
 
 func (p *prog) text() string {
@@ -133,8 +163,47 @@ func (p *prog) prefix() string {
 	return strings.TrimSpace(sb.String())
 }
 
+// variables in scope while generating (single-threaded); call arguments and function bodies start
+// with none (the fragment's restriction: no variable references across scopes)
+var (
+	genVars    []int
+	genNextVar int
+)
+
 // genQ: maxF = highest callable function index (-1: none); inFunc: `param` allowed.
 func genQ(r *common.Rand, depth, maxF int, inFunc bool) *q {
+	if len(genVars) > 0 && r.Chance(1, 6) {
+		return &q{kind: "var", x: common.Pick(r, genVars)}
+	}
+	if depth > 0 && r.Chance(1, 9) {
+		src := genQ(r, depth-1, maxF, inFunc)
+		x := genNextVar
+		genNextVar++
+		genVars = append(genVars, x)
+		body := genQ(r, depth-1, maxF, inFunc)
+		genVars = genVars[:len(genVars)-1]
+		return &q{kind: "bind", x: x, a: src, b: body}
+	}
+	if depth > 0 && r.Chance(1, 9) {
+		// reduce / foreach: source and initial state outside the binding, update (and extract) inside
+		src := genQ(r, depth-1, maxF, inFunc)
+		init := genQ(r, depth-1, maxF, inFunc)
+		x := genNextVar
+		genNextVar++
+		genVars = append(genVars, x)
+		upd := genQ(r, depth-1, maxF, inFunc)
+		e := &q{kind: "reduce", x: x, a: src, b: init, c3: upd}
+		if r.Bool() {
+			e.kind = "foreach"
+			if r.Bool() {
+				e.c4, e.k = &q{kind: "id"}, "2args"
+			} else {
+				e.c4 = genQ(r, depth-1, maxF, inFunc)
+			}
+		}
+		genVars = genVars[:len(genVars)-1]
+		return e
+	}
 	leaf := depth <= 0 || r.Chance(1, 5)
 	if leaf {
 		switch k := r.Intn(10); {
@@ -181,7 +250,11 @@ func genQ(r *common.Rand, depth, maxF int, inFunc bool) *q {
 		return &q{kind: "arr", a: genQ(r, depth-1, maxF, inFunc)}
 	default:
 		if maxF >= 0 {
-			return &q{kind: "call", f: r.Intn(maxF + 1), a: genQ(r, depth-1, maxF, inFunc)}
+			saved := genVars
+			genVars = nil
+			a := genQ(r, depth-1, maxF, inFunc)
+			genVars = saved
+			return &q{kind: "call", f: r.Intn(maxF + 1), a: a}
 		}
 		return &q{kind: "pipe", a: genQ(r, depth-1, maxF, inFunc), b: genQ(r, depth-1, maxF, inFunc)}
 	}
@@ -189,6 +262,7 @@ func genQ(r *common.Rand, depth, maxF int, inFunc bool) *q {
 
 func genProg(r *common.Rand) *prog {
 	p := &prog{}
+	genVars, genNextVar = nil, 0
 	nf := r.Intn(4)
 	for i := 0; i < nf; i++ {
 		// function i may call f0..fi (itself: recursion)
